@@ -183,13 +183,14 @@ class BaseNode(Node):
             value = self.value
         if isinstance(value, Type):
             value = value.value
-        smin, smax = slices.pop(0)
-        if smin==smax and smin is not None:
+        smin, smax, *isrange = slices.pop(0)
+        index = smin==smax and smin is not None and not isrange     # [n], not the (empty) range [n:n]
+        if index:
             value = value[smin]
-        elif smin!=smax:
+        elif smin!=smax or isrange:
             value = value[slice(smin,smax)]                  
         if slices:
-            if smin==smax and smin is not None:
+            if index:
                 return self.slice_value(slices.copy(), value)
             else:
                 return np.array([self.slice_value(slices.copy(), val) for val in value])
